@@ -8,7 +8,7 @@ from .lang import *  # noqa
 
 FEATURES = ["wide-ints", "structs", "arrays", "enums", "optionals", "error-unions", "pointers", "slices", "distinct",
             "fn-pointers", "lambdas", "labeled-blocks", "loops", "switch", "defer", "try", "casts", "recursion",
-            "globals", "implicit-widening", "faults", "nested-aggregates", "block-exprs"]
+            "globals", "implicit-widening", "faults", "nested-aggregates", "block-exprs", "aggregate-eq"]
 
 DEFAULT_CFG = {
     "features": set(FEATURES) - {"faults"},
@@ -19,6 +19,41 @@ DEFAULT_CFG = {
     "int_pool": None,  # default: all
     "avoid": set(),    # open known findings the generator steers away from
 }
+
+
+def contains_slice(t):
+    t0 = strip_distinct(t)
+    if isinstance(t0, Slice):
+        return True
+    if isinstance(t0, Array):
+        return contains_slice(t0.elem)
+    if isinstance(t0, Struct):
+        return any(contains_slice(ft) for _, ft in t0.fields)
+    if isinstance(t0, Enum):
+        return any(pl is not None and contains_slice(pl) for _, pl, _ in t0.variants)
+    if isinstance(t0, Opt):
+        return contains_slice(t0.inner)
+    if isinstance(t0, ErrU):
+        return contains_slice(t0.err) or contains_slice(t0.ok)
+    return False
+
+
+def eq_comparable(t):
+    """aggregates whose `==` is structural and pointer-free"""
+    t0 = strip_distinct(t)
+    if isinstance(t0, (Int, Bool, Char)):
+        return True
+    if isinstance(t0, (Array, Slice)):
+        return eq_comparable(t0.elem)
+    if isinstance(t0, Struct):
+        return all(eq_comparable(ft) for _, ft in t0.fields)
+    if isinstance(t0, Enum):
+        return all(pl is None or eq_comparable(pl) for _, pl, _ in t0.variants)
+    if isinstance(t0, Opt):
+        return eq_comparable(t0.inner)
+    if isinstance(t0, ErrU):
+        return eq_comparable(t0.err) and eq_comparable(t0.ok)
+    return False
 
 
 class G:
@@ -194,6 +229,8 @@ class G:
             prods += ["arith", "arith", "bit", "neg", "cast", "ife"]
         elif isinstance(t0, Bool):
             prods += ["cmp", "cmp", "logic", "not", "ife"]
+            if self.has("aggregate-eq") and self.eq_candidates(env):
+                prods += ["aggeq", "aggeq"]
         elif isinstance(t0, Char):
             prods += ["cast"]
         elif isinstance(t0, (Enum, Opt, ErrU)):
@@ -246,6 +283,20 @@ class G:
             it = self.int_ty()
             op = self.pick(["==", "!=", "<", "<=", ">", ">="])
             return Bin(op, self.expr(it, env, depth - 1), self.expr(it, env, depth - 1), BOOL)
+        if k == "aggeq":
+            # structural == / != on whole aggregates; half of the time both sides are the same variable or
+            # differ in one place only
+            self.used.add("aggregate-eq")
+            n, ty = self.pick(self.eq_candidates(env))
+            l = Var(n, ty)
+            how = self.int(0, 2)
+            if how == 1 and len(self.vars_of(env, ty)) > 1:
+                r = Var(self.pick(self.vars_of(env, ty))[0], ty)
+            elif how == 0 or contains_slice(ty):
+                r = Var(n, ty)
+            else:
+                r = self.expr(ty, env, depth - 1)
+            return Bin(self.pick(["==", "!="]), l, r, BOOL)
         if k == "logic":
             op = self.pick(["&&", "||", "&", "|"])
             return Bin(op, self.expr(BOOL, env, depth - 1), self.expr(BOOL, env, depth - 1), BOOL)
@@ -332,6 +383,9 @@ class G:
         name, payload, _ = en.variants[idx]
         vt = VariantTy(en, idx)
         return VariantLit(vt, None if payload is None else self.leaf(payload, env))
+
+    def eq_candidates(self, env):
+        return [(n, ty) for n, ty, _ in env if not is_scalar(strip_distinct(ty)) and eq_comparable(ty)]
 
     def access_prods(self, t, env):
         out = []
